@@ -73,10 +73,12 @@ def queries(tier):
                     desc='draw_text %s on %dx%d (alpha=%d, background alpha %d, %d symbolic char(s)) at (%d,%d)' % (('glyph/background per-pixel model', 'clipping invariance small vs (W+2)x(H+2)')[mode], W, H, A, BA, nch, tx, ty),
                     bounds='canvas %dx%d, %d character(s), 8-bit channels, position (%d,%d)' % (W, H, nch, tx, ty))
 
-    def ivq(kind, W, H, A, CW, CW2=16):
-        n = W * H * 4 * max(CW, CW2 if kind == 4 else 8) // 8 + 2
+    def ivq(kind, W, H, A, CW, CW2=16, assign_cw=None):
+        n = W * H * 4 * max(CW, CW2 if kind == 4 else 8, assign_cw or 8) // 8 + 2
         defs = {'KIND': kind, 'W': W, 'H': H, 'ALPHA': A, 'CW': CW}
         nm = 'inv_%s_%dx%da%d_cw%d' % (IK[kind], W, H, A, CW)
+        if assign_cw:
+            defs['ASSIGN_CW'] = assign_cw; nm += '_into%d' % assign_cw
         if kind == 4:
             defs['CW2'] = CW2; nm += 'to%d' % CW2
         return dict(name=nm, unit='img', harness='h_invol.c', defs=defs, unwind=max(W * H * 4 + 2, 10),
@@ -108,7 +110,8 @@ def queries(tier):
         qs += [blq(0, 1, 1, 8, 0), blq(1, 1, 1, 8, 1), blq(2, 1, 1, 8, 2), blq(3, 1, 1, 8, 0), blq(3, 1, 1, 8, 3)]
         qs += [txq(0, 3, 3, 1, 255, 1, -3, -4), txq(1, 3, 3, 0, 255, 1, -5, 1)]
         qs += [ivq(0, 3, 2, 1, 8), ivq(1, 2, 3, 0, 16), ivq(2, 2, 2, 1, 8), ivq(2, 2, 1, 0, 64), ivq(3, 2, 2, 0, 8), ivq(4, 2, 2, 1, 8, 16), ivq(4, 1, 2, 0, 16, 32),
-               ivq(5, 2, 2, 1, 8), ivq(6, 2, 2, 0, 8), ivq(7, 2, 2, 1, 16)]
+               ivq(5, 2, 2, 1, 8), ivq(6, 2, 2, 0, 8), ivq(6, 2, 2, 1, 16, assign_cw=8), ivq(7, 2, 2, 1, 16),
+               blq(2, 1, 1, 16, 0)]
         qs += [hvq(0, 3, 2, 1, 0), hvq(0, 3, 2, 0, 2), hvq(1, 2, 3, 1, 1)]
         qs += [dlq(4, 4, 0, 3, 1), dlq(4, 4, 1, -2, 3), dlq(3, 3, 0, 0, 0), dlq(4, 4, 0, -3, -3)]
     else:
@@ -144,7 +147,7 @@ def queries(tier):
                 for kind in (0, 1, 2, 5, 6, 7):
                     qs.append(ivq(kind, W, H, A, 8))
                 qs.append(ivq(3, W, H, A, 8))
-        qs += [ivq(0, 2, 2, 0, 16), ivq(1, 1, 2, 1, 32), ivq(2, 2, 1, 0, 64), ivq(2, 2, 2, 1, 16), ivq(3, 2, 1, 1, 16), ivq(3, 2, 2, 0, 64), ivq(5, 2, 2, 0, 64), ivq(7, 2, 2, 1, 16)]
+        qs += [ivq(0, 2, 2, 0, 16), ivq(1, 1, 2, 1, 32), ivq(2, 2, 1, 0, 64), ivq(2, 2, 2, 1, 16), ivq(3, 2, 1, 1, 16), ivq(3, 2, 2, 0, 64), ivq(5, 2, 2, 0, 64), ivq(7, 2, 2, 1, 16), ivq(6, 2, 1, 0, 8, assign_cw=16), ivq(6, 1, 2, 1, 64, assign_cw=8), ivq(6, 2, 2, 0, 32, assign_cw=16)]
         for (a, b) in [(8, 16), (8, 32), (8, 64), (16, 32), (16, 64), (32, 64), (16, 8), (32, 8), (64, 16), (64, 32)]:
             qs.append(ivq(4, 2, 2, 1, a, b)); qs.append(ivq(4, 1, 2, 0, a, b))
         for kind in (0, 1):
